@@ -22,6 +22,7 @@
 extern int vw_c02_compiler_state (char *, int), vw_c02_lex_state (char *, int), vw_c02_ident_state (char *, int), vw_c02_scratch_state (char *, int),
   vw_c02_icode_state (char *, int), vw_c02_ptrees_state (char *, int), vw_c02_generate_state (char *, int);
 extern void vw_c02_ident_snapshot (void);
+extern void vw_c02_reset_locals (void);
 extern int64_t context;         /* grammar.y */
 
 /* ------------------------------------------------------------------ small utilities */
@@ -293,11 +294,18 @@ static void check_after_input (outcome_t *o, const char *what) {
   if ((o->have_prog && (o->nfun || o->nvar)) || o->nerr) vx_count (3, 1);
 }
 
+static char last_sig[1800];     /* outcome of the last input, for cases that are compared with the same text compiled in another history */
+static void outcome_sig (outcome_t *o, char *out, size_t n) {
+  snprintf (out, n, "program=%d errors=%d escaped=%d hash=%llx problems=%d messages=[%.1500s]", o->have_prog, o->nerr, o->escaped, (unsigned long long) o->hash, o->problems, o->msg);
+  for (char *q = out; *q; q++) if (*q == '\n') *q = '|';
+}
+
 static void run_input (const unsigned char *text, size_t len, int mode, const char *label) {
   outcome_t o;
   tainted_flag = 0;
   compile_input ("c02/in.c", text, len, mode, &o, 0);
   if (tainted_flag) tainted ();
+  outcome_sig (&o, last_sig, sizeof last_sig);
   if (verbose) vx_obs ("%s -> prog=%d nerr=%d esc=%d hash=%llx msg=%.300s", label, o.have_prog, o.nerr, o.escaped, (unsigned long long) o.hash, o.msg);
   check_after_input (&o, label);
   if (probe_every == 1 || (vx_enum_index () % probe_every) == 0 || vx_replaying ()) check_probe (label);
@@ -478,8 +486,83 @@ static void run_hist (long idx) {
   check_probe (label);
 }
 
+/* ------------------------------------------------------------------ part: histpol (histories under master policies)
+ * The applies the driver makes while compile_file() is running (log_error for every message, valid_override for efun::,
+ * valid_save_binary, error_handler for an error raised in one of them) are LPC code: each of them plain / calling a loaded
+ * object / calling an object that has to be compiled first (refused during a compile) / raising an error.
+ * hist-len 1: every combination of the four applies x 28 candidates; hist-len >= 2: one apply at a time x all ordered tuples,
+ * each step compared with its outcome in a fresh driver under the same policy. */
+#define NHISTP 28
+#define NHOOK 4
+#define NPOL1 13
+static const char *HOOK[NHOOK] = { "log_error", "valid_override", "valid_save_binary", "error_handler" };
+static const char *ACT[4] = { "plain", "calls-loaded-object", "loads-new-object", "raises-error" };
+static char pol_alone[NPOL1][NHISTP][1800];
+/* tuples: one apply at a time; --pol-small=1: only the applies made during every compile x the actions that can fail there */
+static int pol_small;
+static const int POL_SMALL[7] = { 0, 2, 3, 5, 6, 8, 9 };
+static int npol (void) { return pol_small ? 7 : NPOL1; }
+static long histpol_total (void) { return hist_len <= 1 ? 256L * NHISTP : npol () * ipow (NHISTP, hist_len); }
+static void pol_decode (long idx, int *act, long *tuple) {
+  if (hist_len <= 1) { long p = idx / NHISTP; *tuple = idx % NHISTP; for (int h = 0; h < NHOOK; h++) act[h] = (int) ((p >> (2 * h)) & 3); }
+  else { long per = ipow (NHISTP, hist_len); int p = (int) (idx / per); if (pol_small) p = POL_SMALL[p]; *tuple = idx % per; for (int h = 0; h < NHOOK; h++) act[h] = 0; if (p) act[(p - 1) / 3] = (p - 1) % 3 + 1; }
+}
+static void pol_set (const int *act) {
+  for (int h = 0; h < NHOOK; h++) {
+    char k[64]; snprintf (k, sizeof k, "c02_%s", HOOK[h]);
+    copy_and_push_string (k); push_number (act ? act[h] : 0);
+    hx_apply (master_ob, "set_policy", 2);
+  }
+}
+static void pol_cleanup (void) {
+  /* objects the policies loaded are gone again before the next element of this child */
+  for (int h = 0; h < NHOOK; h++) {
+    char n[80]; snprintf (n, sizeof n, "c02/pol/fresh_%s", HOOK[h]);
+    object_t *ob = hx_find (n);
+    if (ob) destruct_object (ob);
+  }
+  remove_destructed_objects ();
+  hx_apply (master_ob, "clear_errors", 0);
+}
+static void pol_label (const int *act, char *out, size_t n) {
+  size_t k = 0; out[0] = 0;
+  for (int h = 0; h < NHOOK; h++) if (act[h]) k += (size_t) snprintf (out + k, n - k, "%s%s %s", k ? ", " : "", HOOK[h], ACT[act[h]]);
+  if (!k) snprintf (out, n, "plain master");
+}
+
+static void run_histpol (long idx) {
+  int act[NHOOK], d[4], n = hist_len < 1 ? 1 : hist_len;
+  long tuple;
+  char label[300], pl[160], got[1800], field[120], detail[500], key[220];
+  pol_decode (idx, act, &tuple);
+  pol_label (act, pl, sizeof pl);
+  for (int i = n - 1; i >= 0; i--) { d[i] = (int) (tuple % NHISTP); tuple /= NHISTP; }
+  int pidx = 0; for (int h = 0; h < NHOOK; h++) if (act[h]) pidx = 1 + 3 * h + act[h] - 1;
+  snprintf (label, sizeof label, "[%s]", pl);
+  pol_set (act);
+  for (int i = 0; i < n; i++) {
+    snprintf (label + strlen (label), sizeof label - strlen (label), " h%02d", d[i]);
+    hist_outcome (d[i], got, sizeof got);
+    if (n > 1 && strcmp (got, pol_alone[pidx][d[i]])) {
+      snprintf (key, sizeof key, "C02:history-changes-result:h%02d", d[i]);
+      vx_fail (key, "%s: loading h%02d gives {%.400s} but in a fresh driver with the same master policy {%.400s}", label, d[i], got, pol_alone[pidx][d[i]]);
+    }
+    capture_state (now_state);
+    if (state_diff (base_state, now_state, 1, field, sizeof field, detail, sizeof detail)) {
+      snprintf (key, sizeof key, "C02:residual:%s", field);
+      vx_fail (key, "history %s: compiler state left behind differs from the fresh-driver state: %s", label, detail);
+      tainted ();
+    }
+  }
+  pol_set (0);
+  pol_cleanup ();
+  vx_count (3, 1);
+  check_probe (label);
+}
+
 /* ------------------------------------------------------------------ element dispatch */
 static sb_t work;
+static char **sweep_refsig;      /* sweep: outcome of the reference cases (same text, nothing compiled before) */
 static void describe (long idx, char *buf, size_t len) {
   unsigned char b[64]; int mode = 0; char pr[1500];
   if (!strcmp (part, "bytes2")) { size_t n = gen_bytes2 (idx, b, &mode); printable (b, n, pr, sizeof pr); snprintf (buf, len, "bytes2 %s \"%s\"", mode ? "pre_text" : "fd", pr); }
@@ -487,6 +570,13 @@ static void describe (long idx, char *buf, size_t len) {
   else if (!strcmp (part, "tok")) { gen_tok (idx, &work); printable (work.b, work.n, pr, sizeof pr); snprintf (buf, len, "tok \"%s\"", pr); }
   else if (!strcmp (part, "edit")) { char d[300]; gen_edit (idx, &work, d, sizeof d); snprintf (buf, len, "edit %s", d); }
   else if (!strcmp (part, "sweep")) { char d[300]; sweep_gen (idx, &work, d, sizeof d); snprintf (buf, len, "sweep %s (%zu bytes)", d, work.n); }
+  else if (!strcmp (part, "histpol")) {
+    int act[NHOOK], d[4]; long t; char pl[160];
+    pol_decode (idx, act, &t); pol_label (act, pl, sizeof pl);
+    for (int k = (hist_len < 1 ? 1 : hist_len) - 1; k >= 0; k--) { d[k] = (int) (t % NHISTP); t /= NHISTP; }
+    int n = snprintf (buf, len, "histpol [%s]", pl);
+    for (int k = 0; k < (hist_len < 1 ? 1 : hist_len); k++) n += snprintf (buf + n, len - (size_t) n, " h%02d", d[k]);
+  }
   else if (!strcmp (part, "hist")) { int d[4]; long i = idx; for (int k = hist_len - 1; k >= 0; k--) { d[k] = (int) (i % NHIST); i /= NHIST; } int n = snprintf (buf, len, "hist"); for (int k = 0; k < hist_len; k++) n += snprintf (buf + n, len - (size_t) n, " h%02d", d[k]); }
 }
 
@@ -494,6 +584,7 @@ static void element (long idx) {
   unsigned char b[64]; int mode = 0; char label[400];
   if (selftest == 3 && idx == 5) for (;;) ;             /* self-test: an input on which the "compiler" never returns */
   if (!strcmp (part, "hist")) { run_hist (idx); return; }
+  if (!strcmp (part, "histpol")) { run_histpol (idx); return; }
   describe (idx, label, sizeof label);
   if (!strcmp (part, "bytes2")) {
     size_t n = gen_bytes2 (idx, b, &mode);
@@ -503,7 +594,66 @@ static void element (long idx) {
   } else if (!strcmp (part, "class")) { size_t n = gen_class (idx, b); run_input (b, n, 0, label); }
   else if (!strcmp (part, "tok")) { gen_tok (idx, &work); run_input (work.b, work.n, 0, label); }
   else if (!strcmp (part, "edit")) { char d[300]; gen_edit (idx, &work, d, sizeof d); run_input (work.b, work.n, 0, label); }
-  else if (!strcmp (part, "sweep")) { char d[300]; sweep_gen (idx, &work, d, sizeof d); run_input (work.b, work.n, 0, label); }
+  else if (!strcmp (part, "sweep")) {
+    char d[300], pd[120]; static sb_t prev;
+    long ref = sweep_ref (idx);
+    /* the locals tables only ever grow: these cases start from the tables of a freshly booted driver, whatever this child compiled before */
+    if (sweep_fresh (idx)) vw_c02_reset_locals ();
+    if (sweep_prev (idx, &prev, pd, sizeof pd)) {
+      /* the file compiled before the case: judged like any other input */
+      char pl[200]; outcome_t o;
+      snprintf (pl, sizeof pl, "sweep: the file compiled before the case (%s)", pd);
+      tainted_flag = 0;
+      compile_input ("c02/prev.c", prev.b, prev.n, 0, &o, 0);
+      if (tainted_flag) tainted ();
+      check_after_input (&o, pl);
+    }
+    sweep_gen (idx, &work, d, sizeof d);
+    run_input (work.b, work.n, sweep_mode (idx), label);
+    if (ref >= 0 && ref != idx && sweep_refsig && sweep_refsig[ref] && strcmp (last_sig, sweep_refsig[ref])) {
+      /* key = the kind of construct the file ends with (one defect per kind, not per spelling) */
+      char key[200], en[100] = "?"; const char *e = strstr (d, "ending="), *sp, *cls, *inc = "";
+      if (e && (sp = strchr (e, ' '))) snprintf (en, sizeof en, "%.*s", (int) (sp - e - 7) > 90 ? 90 : (int) (sp - e - 7), e + 7);
+      e = en;
+      if (!strncmp (e, "include-of-header-ending-", 25)) { e += 25; inc = "included-file-ends-with-"; }
+      if (strstr (e, "line-comment")) cls = "line-comment";
+      else if (strstr (e, "block-comment")) cls = "block-comment";
+      else if (!strncmp (e, "define-continued", 16)) cls = "define-continuation";
+      else if (!strncmp (e, "define", 6) || !strncmp (e, "undef", 5) || !strncmp (e, "pragma", 6) || !strncmp (e, "include-no", 10) || !strncmp (e, "hash", 4)) cls = "directive";
+      else if (!strncmp (e, "if", 2) || !strncmp (e, "else", 4)) cls = "conditional";
+      else if (!strncmp (e, "char", 4)) cls = "character-constant";
+      else if (!strncmp (e, "string", 6)) cls = "string";
+      else if (!strncmp (e, "text-block", 10) || !strncmp (e, "array-block", 11) || !strncmp (e, "at", 2)) cls = "text-block";
+      else cls = "code";
+      snprintf (key, sizeof key, "C02:history-changes-result:%s%s", inc, cls);
+      vx_fail (key, "%s: {%.500s} but with nothing compiled before it {%.500s}", label, last_sig, sweep_refsig[ref]);
+    }
+  }
+}
+
+/* outcome of a sweep case in the state every child starts from, computed in a helper child */
+static void sweep_reference (long idx) {
+  int pfd[2];
+  if (pipe (pfd)) return;
+  fflush (0);
+  pid_t pid = fork ();
+  if (pid == 0) {
+    char d[300]; outcome_t o; char sig[1800];
+    close (pfd[0]); alarm (30);
+    sweep_gen (idx, &work, d, sizeof d);
+    compile_input ("c02/in.c", work.b, work.n, sweep_mode (idx), &o, 0);
+    outcome_sig (&o, sig, sizeof sig);
+    if (write (pfd[1], sig, strlen (sig) + 1) < 0) {}
+    syscall (SYS_exit_group, 0);
+  }
+  close (pfd[1]);
+  char buf[1800]; size_t off = 0; ssize_t r;
+  while ((r = read (pfd[0], buf + off, sizeof buf - 1 - off)) > 0) off += (size_t) r;
+  buf[off] = 0;
+  close (pfd[0]);
+  int st; waitpid (pid, &st, 0);
+  if (!off) snprintf (buf, sizeof buf, "the compile did not return (status %x)", st);
+  sweep_refsig[idx] = strdup (buf);
 }
 
 static int size_of_program (const unsigned char *t, size_t n) {
@@ -542,6 +692,10 @@ static void make_lib (void) {
   snprintf (cmd, sizeof cmd, "mkdir -p '%s' && cp -r '%s/mudlib/base/.' '%s/'", libdir, hx_verif_dir (), libdir);
   if (system (cmd)) { fprintf (stderr, "cannot create scratch mudlib\n"); exit (2); }
   c02_lib = libdir;
+  if (!strcmp (part, "histpol")) {
+    snprintf (cmd, sizeof cmd, "cd '%s' && mv master.c master_base.c && cp c02/master_policy.c master.c && mkdir -p c02bin", libdir);
+    if (system (cmd)) { fprintf (stderr, "cannot install the policy master\n"); exit (2); }
+  }
 }
 
 int main (int argc, char **argv) {
@@ -557,6 +711,7 @@ int main (int argc, char **argv) {
   edit_subst_progs = (int) vx_opt_long ("edit-subst-progs", 1000);
   class_len = (int) vx_opt_long ("class-len", 3);
   hist_len = (int) vx_opt_long ("hist-len", 2);
+  pol_small = (int) vx_opt_long ("pol-small", 0);
   verbose = (int) vx_opt_long ("verbose", 0);
   c02_maxlocals = (int) vx_opt_long ("maxlocals", 25);
   if (probe_every < 1) probe_every = 1;
@@ -564,7 +719,7 @@ int main (int argc, char **argv) {
   alarm (90);
   make_lib ();
   if (!strcmp (part, "sweep")) sweep_prepare (thorough);
-  snprintf (conf, sizeof conf, "MaxLocalVariables %d\nMaxInheritDepth 30\nIncludeDir /c02/inc\n", c02_maxlocals);
+  snprintf (conf, sizeof conf, "MaxLocalVariables %d\nMaxInheritDepth 30\nIncludeDir /c02/inc\n%s", c02_maxlocals, !strcmp (part, "histpol") ? "SaveBinaryDir /c02bin\n" : "");
   hx_boot (libdir, conf, 0);
   vx_count_name (0, "programs"); vx_count_name (1, "rejected"); vx_count_name (2, "probe_compiles"); vx_count_name (3, "nontrivial"); vx_count_name (4, "skipped_nul_in_pre_text");
 
@@ -573,6 +728,7 @@ int main (int argc, char **argv) {
   if (!probe_text) { fprintf (stderr, "no probe\n"); return 2; }
   /* the programs the probe inherits stay loaded, as they would in a running driver */
   if (!hx_load ("c02/base", 0) || !hx_load ("c02/base2", 0)) { fprintf (stderr, "cannot load c02/base: %s\n", hx_last_error); return 2; }
+  if (!strcmp (part, "histpol") && !hx_load ("c02/pol/loaded", 0)) { fprintf (stderr, "cannot load c02/pol/loaded: %s\n", hx_last_error); return 2; }
 
   /* baseline: the probe compiled in the freshly booted driver; compiled twice to show the baseline itself is a fixed point */
   outcome_t second;
@@ -653,6 +809,13 @@ int main (int argc, char **argv) {
       else fprintf (stderr, "h_c02: sweep calibration failed (status %x): the code-size family is generated uncalibrated\n", cst);
     }
     total = sweep_total ();
+    /* the locals tables only ever grow: children start from the size they have after boot (the probe has just grown them) */
+    vw_c02_reset_locals ();
+    capture_state (base_state);
+    parent_phase = "reference outcomes";
+    sweep_refsig = calloc ((size_t) total + 1, sizeof (char *));
+    { long lo = vx_opt_long ("replay-index", -1);
+      for (long i = 0; i < total; i++) if (sweep_ref (i) == i && (lo < 0 || sweep_ref (lo) == i)) sweep_reference (i); }
   }
   else if (!strcmp (part, "hist")) {
     total = hist_total ();
@@ -670,6 +833,24 @@ int main (int argc, char **argv) {
       int st; waitpid (pid, &st, 0);
       if (!off) snprintf (hist_alone[k], sizeof hist_alone[k], "died status=%x", st);
       if (verbose) fprintf (stderr, "h%02d alone: %s\n", k, hist_alone[k]);
+    }
+  }
+  else if (!strcmp (part, "histpol")) {
+    total = histpol_total ();
+    parent_phase = "fresh-driver outcomes under each policy";
+    for (int p = 0; p < NPOL1 && hist_len > 1; p++) for (int k = 0; k < NHISTP; k++) {
+      int pfd[2], act[NHOOK] = { 0, 0, 0, 0 };
+      if (p) act[(p - 1) / 3] = (p - 1) % 3 + 1;
+      if (pipe (pfd)) return 2;
+      fflush (0);
+      pid_t pid = fork ();
+      if (pid == 0) { char o[1800]; close (pfd[0]); alarm (60); pol_set (act); hist_outcome (k, o, sizeof o); if (write (pfd[1], o, strlen (o) + 1) < 0) {} syscall (SYS_exit_group, 0); }
+      close (pfd[1]);
+      size_t off = 0; ssize_t r;
+      while ((r = read (pfd[0], pol_alone[p][k] + off, sizeof pol_alone[p][k] - 1 - off)) > 0) off += (size_t) r;
+      close (pfd[0]);
+      int st; waitpid (pid, &st, 0);
+      if (!off) snprintf (pol_alone[p][k], sizeof pol_alone[p][k], "died status=%x", st);
     }
   }
   else { fprintf (stderr, "unknown part %s\n", part); return 2; }
